@@ -82,9 +82,41 @@ def negative_control(ck, recs, cfg, prop):
         dict(mutation=what, line=i + 1, rejected_by=v["invariant"], at_line=v["line"]))
 
 
+def replay_channel(ck, prop, path):
+    """--replay <violation dir | trace.ndjson>: re-execute the recorded schedule on the current tree and judge it again."""
+    tr = os.path.join(path, "trace.ndjson") if os.path.isdir(path) else path
+    recs = core.read_ndjson(tr)
+    hdr = [r for r in recs if is_reset(r)][0]
+    evs = [dict(a="Cfg", p=hdr.get("opener", "A"), x=0, y=0)]
+    for r in recs:
+        if not is_reset(r):
+            evs.append(dict(a="Add" if r["a"] == "AddRejected" else r["a"], p=r["p"], x=r["x"], y=r["y"]))
+    sd = os.path.join(ck.out, "replay_sched")
+    os.makedirs(sd, exist_ok=True)
+    core.write_ndjson(os.path.join(sd, "b_1.ndjson"), evs)
+    res = ck.go_test("./lnwallet/", "^TestVerifChannelExec$", ["lnwallet/channel_exec_test.go"],
+                     env={"VERIF_SCHED": sd, "VERIF_TYPES": hdr.get("type", "tweakless"), "VERIF_SEED": 0,
+                          "VERIF_SHADOW_EVERY": PROFILE[prop]["shadow"]}, name="exec_replay")
+    trace = os.path.join(res["dir"], "trace.ndjson")
+    new = core.read_ndjson(trace)
+    v = ck.validate(SPEC, "ChannelTrace", "ChannelTrace_%s.cfg" % prop, trace, name="val_replay")
+    ck.cov["evaluations"] += len(new)
+    ck.cov["traces_validated_against_impl"] += 1
+    ck.cov["states"] = max(ck.cov["states"], 1)
+    ck.cov["transitions"] = max(ck.cov["transitions"], 1)
+    ck.cov["samples"].append(dict(replayed=tr, events=len(evs)))
+    if not v["ok"]:
+        bad = new[min((v["line"] or 1) - 1, len(new) - 1)]
+        inv = (v["invariant"] or "?").replace("invariant ", "")
+        ck.violation("%s:%s:%s" % (prop, inv, bad.get("a")), "replayed schedule still deviates: %s at %s(%s)" % (
+            inv, bad.get("a"), bad.get("p")), files={"trace.ndjson": trace}, text=v["cex"])
+
+
 def run_channel(ck, prop, extra_overlay=None):
     prof = PROFILE[prop]
     tier = ck.tier
+    if getattr(ck, "replay", None):
+        return replay_channel(ck, prop, ck.replay)
     # (a) the property on the model
     for ent in prof["mc"][tier]:
         module, cfg = ent.split(":") if ":" in ent else ("ChannelMC", ent)
